@@ -67,6 +67,7 @@ def simulate_behaviours(pid, cfg, num, depth, seed):
 CFG_SHAPE = {  # cfg -> (replicas, initial ids)
     "KReplMC_chain": (3, [1]), "KReplMC_2r": (2, [1]), "KReplMC_2r_quick": (2, [1]),
     "KReplMC_2r_skew": (2, [1]), "KReplMC_sim": (3, [1, 2]), "KReplMC_life": (2, [1]), "KReplMC_life_quick": (2, [1]),
+    "KReplMC_attr": (2, [1]),
     "KReplMC_uniq": (2, [1]), "KReplMC_uniq_quick": (2, [1]), "KReplMC_trim": (2, [1]), "KReplMC_trim_quick": (2, [1]),
 }
 
@@ -82,8 +83,8 @@ def run_property(pid, tier, replay, meta, mode, witnesses, cfgs_quick=None, cfgs
         scripts.append(("replay", [json.loads(l) for l in lib.read_lines(replay)]))
     else:
         # (1) exhaustive exploration of the model; counterexamples become behaviours to replay
-        cfgs = (cfgs_quick or ["KReplMC_chain", "KReplMC_2r_quick"]) if tier == "quick" else \
-               (cfgs_thorough or ["KReplMC_chain", "KReplMC_2r", "KReplMC_2r_skew"])
+        cfgs = (cfgs_quick or ["KReplMC_chain", "KReplMC_2r_quick", "KReplMC_attr"]) if tier == "quick" else \
+               (cfgs_thorough or ["KReplMC_chain", "KReplMC_2r", "KReplMC_2r_skew", "KReplMC_attr"])
         states, trans, cex = mc_runs(pid, cfgs, 4 if tier == "quick" else 8, 900 if tier == "quick" else 3000)
         seen = set()
         for cfg, inv, hist in cex:
